@@ -15,8 +15,8 @@ PROP = {
         "decidable hypothesis InInt64 / actor < 2^96 (EntryOk)",
         "bytes.Reader.Read semantics (short read is not an error, error only at end of input) as transcribed in Model/ByteCodec.lean `readPad`",
         "the protobuf-level half (engine pbfuzz) is NOT tied to any Lean definition: proto.Marshal/Unmarshal, api/converter, "
-        "database.ChangeInfo, the BSON registry are exercised directly; its harness-side classification of mismatches against the known "
-        "CRDT-layer defects (by generator class and by the shape of the difference) is trusted",
+        "database.ChangeInfo, the BSON registry are exercised directly; its harness-side evidence predicates (harness/eng_pbfuzz_diff.go; "
+        "one per listed finding, none of them looks at the generator class) are trusted",
     ],
     "level_text": "Lean theorems over every value / every byte string: version-vector bytes round trip in any map order, exact accept set of "
                   "VersionVectorFromBytes, no iteration without input (huge counts), primitive and counter value bytes round trip for "
@@ -32,6 +32,11 @@ PROP = {
     "technique": "Lean 4 proof (arithmetic on byte lists, BitVec) + per-call differential replay of the byte codecs + oracle/mutation "
                  "stream on the protobuf codecs",
     "partial": [
+        "GarbageLen through a snapshot: the property text compares the live document's GarbageLen with the decoded one. The live "
+        "root's incremental bookkeeping differs from a rebuild of its OWN graph in several identified shapes (findings C09-n1, n2, "
+        "k8, k9, k10) and a residual one (C09-n7); those items never involve the codec. What the codec contributes is judged "
+        "strictly: tombstones and owner-qualified GC pairs of the live graph vs the decoded graph, and the registrations of a root "
+        "rebuilt from each - nothing unexplained is tolerated there",
         "never a crash or hang (hostile bytes): supported only by the malformed streams (codec: goroutine+timeout per call; pbfuzz: "
         "recover()+10 s timeout per input, structural protobuf mutation + raw byte mutation); no theorem",
         "struct-level round trip FromChangePack∘ToChangePack, BytesToSnapshot∘SnapshotToBytes, ChangeInfo (BSON) on the real code only "
